@@ -220,6 +220,8 @@ class Sim:
         self.assigned = []      # (serial, uid, name, status) per simulated result
         self.sleep_log = []
         self.exec_budget = scenario.get("exec_budget", 400)
+        self.graph_violations = []
+        self.graph_probes = {}
         self.serial_at_epoch = 0
 
     # -- logging -------------------------------------------------------------------------
@@ -647,6 +649,74 @@ def register_workers(sim, workers):
         sim.workers_by_addr[addr] = w.id
 
 
+def _unrestricted(graph):
+    return {w.id for w in graph.workers.values() if not any(v.strip() for v in w.restrs.values())}
+
+
+def _picker(sim, tag):
+    def pick(key, n):
+        from sim.plan import H
+        return H(sim.plan.seed, "gc", tag, key) % max(n, 1)
+    return pick
+
+
+def gc_step(sim, graph, props, phase):
+    from travsim import graphcheck
+    if "C06" in props:
+        sim.graph_violations += graphcheck.check_wellformed(graph, phase)
+    if "C16" in props:
+        sim.graph_violations += graphcheck.check_index(graph, phase, _picker(sim, f"{phase}/{len(graph.nodes)}"), n_queries=6)
+
+
+def gc_eager(sim, graph, props, restriction, scenario, param_dict):
+    from travsim import graphcheck
+    from avocado_i2n.cartgraph import TestGraph
+    if "C06" in props:
+        sim.graph_violations += graphcheck.check_wellformed(graph, "eager-parse", final=True)
+    if "C09" in props:
+        sim.graph_violations += graphcheck.check_bridging(graph, "eager-parse", _unrestricted(graph))
+        sim.graph_violations += graphcheck.check_worker_copies(graph, "eager-parse", _unrestricted(graph))
+        if scenario.get("parse_twice"):
+            again = TestGraph.parse_object_trees(None, restriction, "", dict(scenario["vm_strs"]), dict(param_dict))
+            sim.graph_violations += graphcheck.compare_twice(graph, again, "eager-parse-twice")
+            sim.graph_probes["parsed-twice"] = sim.graph_probes.get("parsed-twice", 0) + 1
+            # parse_workers rebuilt the swarm registry with new worker objects: restore the traversed graph's ones
+            from avocado_i2n.cartgraph.worker import TestSwarm
+            TestSwarm.run_swarms = {}
+            for w in graph.workers.values():
+                TestSwarm.run_swarms.setdefault(w.swarm_id, TestSwarm(w.swarm_id, [])).workers.append(w)
+    if "C16" in props:
+        sim.graph_violations += graphcheck.check_index(graph, "eager-parse", _picker(sim, "eager"), n_queries=16)
+
+
+def gc_final(sim, graph, props, restriction, scenario, param_dict, shadow):
+    from travsim import graphcheck
+    from avocado_i2n.cartgraph import TestGraph
+    lazy = scenario.get("mode", "lazy") != "eager"
+    if "C06" in props:
+        sim.graph_violations += graphcheck.check_wellformed(graph, "end-of-run", final=True)
+    if "C09" in props:
+        sim.graph_violations += graphcheck.check_bridging(graph, "end-of-run", _unrestricted(graph))
+        if lazy and scenario.get("compare_eager", True) and str(param_dict.get("dry_run", "no")) != "yes":
+            from avocado_i2n.cartgraph.worker import TestSwarm
+            saved = TestSwarm.run_swarms
+            try:
+                eager = TestGraph.parse_object_trees(None, restriction, "", dict(scenario["vm_strs"]), dict(param_dict))
+            except Exception as error:
+                eager = None
+                sim.graph_probes["eager-reference-rejected"] = sim.graph_probes.get("eager-reference-rejected", 0) + 1
+            finally:
+                TestSwarm.run_swarms = saved
+            if eager is not None:
+                sim.graph_violations += graphcheck.compare_lazy_eager(graph, eager, "lazy-vs-eager")
+                sim.graph_probes["lazy-eager-compared"] = sim.graph_probes.get("lazy-eager-compared", 0) + 1
+    if "C16" in props:
+        sim.graph_violations += graphcheck.check_index(graph, "end-of-run", _picker(sim, "final"), n_queries=24)
+        if shadow is not None:
+            sim.graph_violations += shadow.check(graph, "end-of-run")
+            sim.graph_probes["register-visits"] = sum(shadow.counts.values())
+
+
 def run_epoch(sim, epoch_cfg, logs_dir):
     """Run one simulated job (epoch) with the real ``TestRunner.run_workers``.
 
@@ -679,6 +749,19 @@ def run_epoch(sim, epoch_cfg, logs_dir):
     runner._sim = sim
     sim.runner = runner
 
+    graph_props = scenario.get("graph_props")
+    shadow = None
+    if graph_props:
+        from travsim import graphcheck
+        real_expand = TestGraph.parse_paths_to_object_roots
+
+        def checked_expand(self, test_node, test_object, params=None):
+            yield from real_expand(self, test_node, test_object, params)
+            if sim.graph is self:
+                sim.graph_probes["lazy-expansion-checked"] = sim.graph_probes.get("lazy-expansion-checked", 0) + 1
+                gc_step(sim, self, graph_props, "lazy-expansion")
+
+        TestGraph.parse_paths_to_object_roots = checked_expand
     step_budget = epoch_cfg.get("step_budget", scenario.get("step_budget", 150_000))
     loop = make_loop(sim, step_budget, epoch_cfg.get("vtime_budget", scenario.get("vtime_budget")))
     ending = {"epoch": sim.epoch, "how": "completed", "error": None}
@@ -687,10 +770,18 @@ def run_epoch(sim, epoch_cfg, logs_dir):
     try:
         restriction = scenario["tests"]
         if scenario.get("mode", "lazy") == "eager":
+            if graph_props and "C16" in graph_props:
+                shadow = graphcheck.RegisterShadow()
+                shadow.install()
             graph = TestGraph.parse_object_trees(
                 None, restriction, "", dict(scenario["vm_strs"]), dict(param_dict))
             suite = graph
+            if graph_props:
+                gc_eager(sim, graph, graph_props, restriction, scenario, param_dict)
         else:
+            if graph_props and "C16" in graph_props:
+                shadow = graphcheck.RegisterShadow()
+                shadow.install()
             flat = TestGraph.parse_flat_nodes(restriction, dict(param_dict))
             suite = TestSuite.__new__(TestSuite)
             suite.tests = flat
@@ -715,6 +806,10 @@ def run_epoch(sim, epoch_cfg, logs_dir):
             runner.run_workers(suite, param_dict)
         finally:
             TestGraph.new_workers = real_new_workers
+            if graph_props:
+                TestGraph.parse_paths_to_object_roots = real_expand
+        if graph_props and sim.graph is not None:
+            gc_final(sim, sim.graph, graph_props, restriction, scenario, param_dict, shadow)
     except asyncio.TimeoutError:
         ending["how"] = "crashed"
         sim.fault("crash-restart")
